@@ -13,6 +13,7 @@
   `Spec/Lehmann.lean`, `Spec/Bridge.lean` (fully proved).
 -/
 import PomerolModel.Spec.Bridge
+import PomerolModel.Spec.TruncBounds
 
 namespace Pomerol.Properties.C19
 open Matrix Complex Pomerol Pomerol.Spec
@@ -79,5 +80,148 @@ example :
   · rintro ⟨w, hw, hlt⟩
     simp only [List.mem_cons, List.not_mem_nil, or_false] at hw
     rcases hw with rfl | rfl <;> norm_num at hlt
+
+/-! ### susceptibility and two-particle function (proved in `Spec/TruncBounds.lean`)
+
+`d.suscTerm A B k n m` is the `(n, m)` term of the bosonic Lehmann sum `d.lehmannSusc A B k`
+(`lehmannSusc_eq_sum_suscTerm`, by `rfl`); `d.truncLehmannSusc A B D k` is that sum with the terms
+whose two states BOTH lie in the discarded set `D` left out (the stripe rule);
+`d.worldLineTerm … n1 n2 n3 n4` is the term of one world line of `d.orderedLehmann` (one time
+ordering of the two-particle function), `d.truncChiLehmann` the two-particle Lehmann sum with the
+world lines whose FOUR states all lie in `D` left out. -/
+
+/-- The stripe rule is an identity: what the library sums after truncation (a term is kept unless
+both its states are discarded) equals the full Lehmann sum minus the terms over pairs of discarded
+states — for the Green's function and for the susceptibility. -/
+theorem stripe_rule (d : EigenData ι) (C CX A B : Matrix ι ι ℂ) (D : Finset ι) (z : ℂ) (k : ℤ) :
+    d.truncLehmannG C CX D z
+        = d.lehmannG C CX z - ∑ p ∈ D ×ˢ D, d.gTerm C CX z p.1 p.2 ∧
+    d.truncLehmannSusc A B D k
+        = d.lehmannSusc A B k - ∑ p ∈ D ×ˢ D, d.suscTerm A B k p.1 p.2 :=
+  ⟨stripe_rule_G d C CX D z, stripe_rule_susc d A B D k⟩
+
+/-- Error bound for the susceptibility χ_AB(iΩ_k): the Lehmann terms of any set `S` of pairs of
+eigenstates whose two weights are both `≤ eps` contribute, in absolute value,
+at most `2·eps·W/|Ω_k|` at every non-zero bosonic Matsubara frequency, and at most `β·eps·W` at
+zero frequency (where also the "zero-pole" terms `β·w_n·A_nm·B_mn` of degenerate levels and the
+difference quotients `(w_n − w_m)/(E_m − E_n)` are covered), with `W = Σ_{n,m} |A_nm|·|B_mn|`.
+No assumption on the operators `A`, `B` or on the spectrum. -/
+theorem susceptibility_bound (d : EigenData ι) (A B : Matrix ι ι ℂ)
+    (eps : ℝ) (heps : 0 ≤ eps) (S : Finset (ι × ι))
+    (hS : ∀ p ∈ S, d.w p.1 ≤ eps ∧ d.w p.2 ≤ eps) :
+    (∀ k : ℤ, k ≠ 0 →
+      ‖∑ p ∈ S, d.suscTerm A B k p.1 p.2‖
+        ≤ 2 * eps * (∑ n, ∑ m, ‖A n m‖ * ‖B m n‖) / |d.Ω k|) ∧
+    ‖∑ p ∈ S, d.suscTerm A B 0 p.1 p.2‖
+        ≤ d.β * eps * (∑ n, ∑ m, ‖A n m‖ * ‖B m n‖) :=
+  ⟨fun k hk => susc_truncation_bound d A B k hk eps heps S hS,
+   susc_truncation_bound_static d A B eps heps S hS⟩
+
+/-- The same as a statement about the truncated susceptibility: if all states of the discarded set
+`D` have weight `≤ eps`, the truncated bosonic Lehmann sum differs from the full one by at most
+`2·eps·W/|Ω_k|` (`k ≠ 0`) resp. `β·eps·W` (`k = 0`). -/
+theorem susceptibility_truncation_error (d : EigenData ι) (A B : Matrix ι ι ℂ)
+    (eps : ℝ) (heps : 0 ≤ eps) (D : Finset ι) (hD : ∀ n ∈ D, d.w n ≤ eps) :
+    (∀ k : ℤ, k ≠ 0 →
+      ‖d.lehmannSusc A B k - d.truncLehmannSusc A B D k‖
+        ≤ 2 * eps * (∑ n, ∑ m, ‖A n m‖ * ‖B m n‖) / |d.Ω k|) ∧
+    ‖d.lehmannSusc A B 0 - d.truncLehmannSusc A B D 0‖
+        ≤ d.β * eps * (∑ n, ∑ m, ‖A n m‖ * ‖B m n‖) :=
+  ⟨fun k hk => susc_stripe_error d A B k hk eps heps D hD,
+   susc_stripe_error_static d A B eps heps D hD⟩
+
+/-- Dimension form for quadratic operators `A = c†_a c_b`, `B = c†_c c_d` built from operators
+obeying `{c, c†} = 1`: then `W ≤ dim`, so the truncation error of the susceptibility is at most
+`2·eps·dim/|Ω_k|` (`k ≠ 0`) resp. `β·eps·dim` (`k = 0`). -/
+theorem susceptibility_bound_dim (d : EigenData ι) (Ca Cb Cc Cd : Matrix ι ι ℂ)
+    (ha : Ca * Caᴴ + Caᴴ * Ca = 1) (hb : Cb * Cbᴴ + Cbᴴ * Cb = 1)
+    (hc : Cc * Ccᴴ + Ccᴴ * Cc = 1) (hd : Cd * Cdᴴ + Cdᴴ * Cd = 1)
+    (eps : ℝ) (heps : 0 ≤ eps) (D : Finset ι) (hD : ∀ n ∈ D, d.w n ≤ eps) :
+    (∀ k : ℤ, k ≠ 0 →
+      ‖d.lehmannSusc (Caᴴ * Cb) (Ccᴴ * Cd) k - d.truncLehmannSusc (Caᴴ * Cb) (Ccᴴ * Cd) D k‖
+        ≤ 2 * eps * (Fintype.card ι) / |d.Ω k|) ∧
+    ‖d.lehmannSusc (Caᴴ * Cb) (Ccᴴ * Cd) 0 - d.truncLehmannSusc (Caᴴ * Cb) (Ccᴴ * Cd) D 0‖
+        ≤ d.β * eps * (Fintype.card ι) :=
+  ⟨fun k hk => susc_stripe_error_dim d _ _ (quadratic_row_normSq_le_one Ca Cb ha hb)
+      (quadratic_col_normSq_le_one Cc Cd hc hd) k hk eps heps D hD,
+   susc_stripe_error_static_dim d _ _ (quadratic_row_normSq_le_one Ca Cb ha hb)
+      (quadratic_col_normSq_le_one Cc Cd hc hd) eps heps D hD⟩
+
+/-- The scalar fact behind the zero-frequency bound: the difference quotient of two Boltzmann
+factors is at most `β` times the larger one. -/
+theorem weight_difference_quotient (β : ℝ) (hβ : 0 < β) (a b : ℝ) (hab : a ≠ b) :
+    |Real.exp (-β * a) - Real.exp (-β * b)| / |b - a|
+      ≤ β * max (Real.exp (-β * a)) (Real.exp (-β * b)) :=
+  weight_diff_quotient_le β hβ a b hab
+
+/-- Error bound for the two-particle Green's function, PARTIAL (non-resonant regime only): for one
+time ordering with complex frequencies `za, zb, zc`, let `S` be any set of world lines (quadruples
+of eigenstates) whose four weights are all `≤ eps` and for which all six denominators of the
+library's four-term expression (`z_a − P_a`, `z_a + z_b − P_a − P_b`, `z_b + z_c − P_b − P_c`,
+`z_a + z_b + z_c − P_a − P_b − P_c`, `P` = level differences along the world line) are at least
+`δ > 0` in modulus.  Then these world lines contribute at most `6·eps/δ³ · W₄` in absolute value,
+`W₄ = Σ |A_{12}|·|B_{23}|·|C_{34}|·|X_{41}|`.
+Not covered by THIS statement: resonant / near-resonant world lines (bosonic denominators below
+`δ`), where the expression contains terms proportional to `β`; see `two_particle_bound_matsubara`
+for a statement that covers them at Matsubara frequencies. -/
+theorem two_particle_bound_partial (d : EigenData ι) (A B Cc X : Matrix ι ι ℂ) (za zb zc : ℂ)
+    (eps δ : ℝ) (heps : 0 ≤ eps) (hδ : 0 < δ) (S : Finset (ι × ι × ι × ι))
+    (hS : ∀ p ∈ S, d.w p.1 ≤ eps ∧ d.w p.2.1 ≤ eps ∧ d.w p.2.2.1 ≤ eps ∧ d.w p.2.2.2 ≤ eps)
+    (hnr : ∀ p ∈ S, NonResonant δ za zb zc
+      (d.E p.2.1 - d.E p.1) (d.E p.2.2.1 - d.E p.2.1) (d.E p.2.2.2 - d.E p.2.2.1)) :
+    ‖∑ p ∈ S, d.worldLineTerm A B Cc X za zb zc p.1 p.2.1 p.2.2.1 p.2.2.2‖
+      ≤ 6 * eps / δ ^ 3 * absWeight4 A B Cc X :=
+  chi4_truncation_bound_partial d A B Cc X za zb zc eps δ heps hδ S hS hnr
+
+/-- Error bound for the two-particle Green's function at fermionic Matsubara frequencies, ALL
+frequency triples and all resonance classes: if all states of the discarded set `D` have weight
+`≤ eps`, the two-particle Lehmann sum with the world lines inside `D` left out differs from the
+full one by at most `(4 + 2π)·eps·β³/π³ · W`, `W` = the sum over the six time orderings of
+`Σ |O_{12}|·|O'_{23}|·|O''_{34}|·|X_{41}|`.  (At purely imaginary frequencies a small bosonic
+denominator comes with a small weight difference, so the bracket is never larger than `β·eps`.) -/
+theorem two_particle_bound_matsubara (d : EigenData ι) (O : Fin 3 → Matrix ι ι ℂ)
+    (X : Matrix ι ι ℂ) (k1 k2 k3 : ℤ) (eps : ℝ) (heps : 0 ≤ eps)
+    (D : Finset ι) (hD : ∀ n ∈ D, d.w n ≤ eps) :
+    ‖d.chiLehmann O X ![I * (d.ω k1 : ℂ), I * (d.ω k2 : ℂ), -(I * (d.ω k3 : ℂ))]
+        - d.truncChiLehmann O X D ![I * (d.ω k1 : ℂ), I * (d.ω k2 : ℂ), -(I * (d.ω k3 : ℂ))]‖
+      ≤ (4 + 2 * Real.pi) * eps * d.β ^ 3 / Real.pi ^ 3 * absWeightChi O X :=
+  chi_stripe_error_matsubara d O X k1 k2 k3 eps heps D hD
+
+/-- The hypotheses of `susceptibility_bound` are satisfiable non-trivially: two levels `E = 0, 1`
+at `β = 1`, tolerance `1/2`; the upper level has weight `≤ 1/2` (so the pair `(1,1)` may be
+skipped) while the lower level has weight `> 1/2` (so not everything is discarded). -/
+example : ∃ (d : EigenData (Fin 2)) (eps : ℝ) (S : Finset (Fin 2 × Fin 2)),
+    0 ≤ eps ∧ eps < 1 ∧ S.Nonempty ∧ (∀ p ∈ S, d.w p.1 ≤ eps ∧ d.w p.2 ≤ eps) ∧
+      ∃ n, eps < d.w n := by
+  have ht0 : 0 < Real.exp (-1) := Real.exp_pos _
+  have ht1 : Real.exp (-1) < 1 := by
+    rw [Real.exp_lt_one_iff]; norm_num
+  have hw : ∀ n : Fin 2, (EigenData.w (⟨1, one_pos, ![0, 1]⟩ : EigenData (Fin 2)) n)
+      = Real.exp (-1 * (![0, 1] : Fin 2 → ℝ) n) / (1 + Real.exp (-1)) := by
+    intro n
+    simp [EigenData.w, EigenData.Z, Fin.sum_univ_two]
+  refine ⟨⟨1, one_pos, ![0, 1]⟩, 1 / 2, {(1, 1)}, by norm_num, by norm_num,
+    ⟨(1, 1), Finset.mem_singleton_self _⟩, ?_, ⟨0, ?_⟩⟩
+  · intro p hp
+    rw [Finset.mem_singleton] at hp
+    subst hp
+    have h1 : (EigenData.w (⟨1, one_pos, ![0, 1]⟩ : EigenData (Fin 2)) 1) ≤ 1 / 2 := by
+      rw [hw]
+      simp only [Matrix.cons_val_one, Matrix.cons_val_zero, mul_one]
+      rw [div_le_iff₀ (by linarith)]
+      linarith
+    exact ⟨h1, h1⟩
+  · rw [hw]
+    simp only [Matrix.cons_val_zero, mul_zero, Real.exp_zero]
+    rw [lt_div_iff₀ (by linarith)]
+    linarith
+
+/-- The non-resonance hypothesis of `two_particle_bound_partial` is satisfiable: frequencies
+`z_a = i·1` are non-resonant with margin `δ = 1` whatever the level differences are (more generally
+`nonResonant_of_imag`: any purely imaginary triple with non-vanishing partial sums). -/
+example (P1 P2 P3 : ℝ) :
+    NonResonant 1 (I * ((1:ℝ):ℂ)) (I * ((1:ℝ):ℂ)) (I * ((1:ℝ):ℂ)) P1 P2 P3 :=
+  nonResonant_of_imag 1 1 1 1 (by norm_num) (by norm_num) (by norm_num) (by norm_num)
+    (by norm_num) (by norm_num) P1 P2 P3
 
 end Pomerol.Properties.C19
